@@ -159,10 +159,12 @@ def edge_conditions(fn, target_bbs):
         if t["k"] != "switch":
             continue
         live = []
+        # an out-edge is live if a target can still be reached through it without coming back to b
+        # (for a loop header this selects the exit decision, not the edge into the body)
         for v, s in t["targets"]:
-            if s in can:
+            if s in can and (s in targets or fn.can_reach(s, targets, avoid=[b])):
                 live.append((v, s))
-        if t["otherwise"] in can:
+        if t["otherwise"] in can and (t["otherwise"] in targets or fn.can_reach(t["otherwise"], targets, avoid=[b])):
             live.append(("otherwise", t["otherwise"]))
         succs = {s for _, s in live}
         if len(succs) == 1 and len(live) >= 1 and len(set(fn.succ(b))) > 1:
